@@ -138,14 +138,22 @@ def one_run(job):
     open(ap, 'wb').write(A)
     os.chmod(ap, 0o644)
     # pre-existing symlinks at final path components (never symlinks to directories on a path)
+    ro_parents = []
     if pre:
-        for name, target in pre:
+        for ent in pre:
+            name, target = ent[0], ent[1]
             p = os.path.join(root, name)
             os.makedirs(os.path.dirname(p), exist_ok=True)
             os.chown(os.path.dirname(p), 65534, 65534)
             if not os.path.lexists(p):
                 os.symlink(target.replace('CANARY', canary), p)
                 os.lchown(p, 65534, 65534)
+            if len(ent) > 2 and ent[2] == 'ro-parent':
+                # the directory holding the link does not allow removing it (unlink fails), while the link's target is writable
+                ro_parents.append(os.path.dirname(p))
+        for d_ in ro_parents:
+            os.chmod(d_, 0o555)
+        pre = [(e[0], e[1]) for e in pre]
     before = fsmon.snapshot(canary)
     rc, so_, se, evs = fsmon.run_monitored(exe, so, [cmd, 'a.lzh'], root, stdin=b'y\ny\ny\ny\ny\ny\ny\ny\n')
     readonly = cmd.split('=')[0] in READONLY_CMDS or ('n' in cmd[1:].split('w')[0] and cmd[0] in 'xep')
@@ -168,7 +176,7 @@ def one_run(job):
                 viol.append(('C10-preexisting-symlink-followed', "'lha %s' wrote to %s while it still is a symlink to %s" % (cmd, name, target)))
             # the archive has a member stored at exactly this path and the overwrite policy allows it: the link must have been replaced
             member_here = {'a': 'file-a', 'd/f': 'file-in-dir', 'x': 'file-dotdot'}.get(name)
-            if member_here and ('seq:' in tag or tag == 'preexisting-symlink') and member_here in job[8] and 'i' not in cmd[1:]:
+            if member_here and ('seq:' in tag or tag == 'preexisting-symlink') and member_here in job[8] and 'i' not in cmd[1:] and not ro_parents:
                 if os.path.islink(p) or not os.path.isfile(p):
                     viol.append(('C10-preexisting-symlink-not-replaced', "'lha %s': %s is archived at a path where a symlink to %s existed; after "
                                  "extraction it is %s" % (cmd, member_here, target, 'still a symlink' if os.path.islink(p) else 'missing')))
@@ -364,6 +372,8 @@ def run(ctx):
     # pre-existing symlinks at final components
     pres = [[('a', 'CANARY/precious.txt')], [('a', 'CANARY')], [('a', 'dangling-target')], [('d/f', 'CANARY/precious.txt')],
             [('d/f', '../../nowhere')], [('x', 'CANARY/sub/ro.txt')]]
+    pres += [[('d/f', 'CANARY/precious.txt', 'ro-parent')], [('a', 'CANARY/precious.txt', 'ro-parent')], [('d/f', 'CANARY/sub/ro.txt', 'ro-parent')],
+             [('d/f', '../../canary/precious.txt', 'ro-parent')], [('x', 'CANARY/precious.txt', 'ro-parent')]]
     for pre in pres:
         for cmd in ('xf', 'xq', 'x', 'xfi'):
             for seq in (['file-a'], ['dir-d', 'file-in-dir'], ['file-dotdot'], ['file-a', 'file-in-dir', 'link-abs-canary']):
